@@ -14,7 +14,9 @@ EXPLANATION = (
     "the variable it is received into (or the date comparison it takes part in) must be the quantity the k-th named "
     "column holds. C15.b (row binding): read_weather_inputs derives the window only through boolean masks comparing the "
     "Date column with the start / end date - never through index labels or row positions - and the rows of the matrix "
-    "are addressed by the time-step counter of the window's date range. NOT decided: numerical identity of the runs.")
+    "are addressed by the time-step counter of the window's date range. C15.c: in every function that receives the weather frame (followed "
+    "positionally from self.weather_df) whole-row operations (dropna, drop_duplicates, duplicated) name the columns they look at - an unrelated "
+    "extra column must not decide which days survive. NOT decided: numerical identity of the runs.")
 
 RECEIVER = {
     "MinTemp": re.compile(r"(^|_)(t?min|temp_min|tmin)", re.I),
@@ -102,4 +104,7 @@ def run(chk, prog, tier):
         chk.ok("C15.b", pt.key, "weather row of the day", "self._weather[time_step_counter]")
     else:
         chk.violation("C15.b", pt.key, "weather row of the day", "the day's weather row is not the matrix row at the time-step counter", loc=pt.loc())
+    from ._weather import whole_row_ops
+    nrow = whole_row_ops(chk, prog, "C15.c")
+    chk.floor("C15.c", len(chk.notes.get("C15.c_weather_frame_formals", [])), 3, "functions receiving the weather frame")
     chk.exhaustive = True
